@@ -324,8 +324,10 @@ def parse_sites(repo):
     (dateutil.parser.parse etc. resolve to a dotted module function)."""
     out = []
     for fi in repo.all_functions():
-        if fi.module.name.startswith('yaql.cli'):
-            continue
+        if not (fi.module.name.startswith('yaql.language') or
+                fi.module.name in ('yaql', 'yaql.yaql_interface',
+                                   'yaql.legacy')):
+            continue      # e.g. string.Formatter().parse in the library
         for call in model.calls_in(fi.node, shallow=True):
             f = call.func
             if not (isinstance(f, ast.Attribute) and f.attr == 'parse'):
@@ -379,6 +381,67 @@ def check_error_hook(repo, rep):
            'p_error can return: ply then enters error recovery, which reads '
            'parser attributes (errorok, symstack) another parse may have '
            'written', loc=parm.loc(fi.node))
+
+
+def ply_parser_parse_state():
+    """Attributes that ply's LRParser.parse* methods (re)assign on the one
+    parser object shared by all parses of an engine -- derived from ply's
+    source."""
+    try:
+        import ply.yacc as yaccmod
+        with open(yaccmod.__file__) as f:
+            tree = ast.parse(f.read())
+    except Exception:
+        return set()
+    out = set()
+    for n in ast.walk(tree):
+        if isinstance(n, ast.ClassDef) and n.name == 'LRParser':
+            for m in n.body:
+                if isinstance(m, ast.FunctionDef) and m.name.startswith(
+                        'parse'):
+                    for w in effects.writes_in(m):
+                        if w.root == 'self' and w.kind in ('attr',
+                                                           'aug-attr'):
+                            out.add(w.method)
+    return out
+
+
+def check_parser_state_reads(repo, rep):
+    """R01e: parse-path code never reads the per-parse state ply keeps on
+    the shared LRParser object (symstack, statestack, state, errorok,
+    token): during a concurrent parse it holds another text's data."""
+    attrs = ply_parser_parse_state() - {'token'}
+    rep.extra_cov['ply_parser_per_parse_attributes'] = sorted(attrs)
+    rep.ob('R01e', 'ply.yacc:LRParser/per-parse-attributes', len(attrs) >= 3,
+           'could not derive the per-parse attributes of ply\'s LRParser',
+           nontrivial=True)
+    n = 0
+    for fi, role in parse_path_functions(repo):
+        for node in model.walk_shallow(fi.node):
+            name = None
+            if isinstance(node, ast.Attribute) and isinstance(
+                    node.ctx, ast.Load) and node.attr in attrs:
+                name = node.attr
+            elif isinstance(node, ast.Call) and isinstance(
+                    node.func, ast.Name) and node.func.id == 'getattr' and \
+                    len(node.args) >= 2 and isinstance(
+                        node.args[1], ast.Constant) and \
+                    node.args[1].value in attrs:
+                name = node.args[1].value
+            if name is None:
+                continue
+            n += 1
+            rep.ob('R01e', fi.key + '/reads[%s]' % name, False,
+                   'parse-path code reads `%s`, which ply re-assigns on the '
+                   'one LRParser object of the engine at the start of every '
+                   'parse(): while another thread parses on the same engine '
+                   'it holds that other text\'s stack, so this parse\'s '
+                   'result (tree or error) depends on the other text' % (
+                       model.norm(node)), loc=fi.module.loc(node),
+                   construct=model.norm(node))
+    if not n:
+        rep.ob('R01e', 'parse-path/no-read-of-parser-state', True,
+               'no read of %s on the parse path' % sorted(attrs))
 
 
 def ply_facts(rep):
@@ -457,6 +520,8 @@ def run(repo, rep):
              'construction, locals); text-keyed memo is the one benign idiom')
     rep.rule('R01c', 'ERRORFUNC-RAISES: p_error raises on every path, so '
              'ply never enters error recovery')
+    rep.rule('R01e', 'NO-READ-OF-PARSER-STATE: parse-path code never reads '
+             'symstack/statestack/state/errorok of the shared ply parser')
     rep.rule('R01d', 'yaql.eval caches: globals are lazily initialised '
              'with call-independent values or are text-keyed memos')
     rep.trusted += ['ply 3.11: LRParser.parseopt_notrack keeps its stacks in '
@@ -474,4 +539,5 @@ def run(repo, rep):
     check_lexer_per_call(repo, rep)
     check_stateless(repo, rep)
     check_error_hook(repo, rep)
+    check_parser_state_reads(repo, rep)
     check_eval_globals(repo, rep)
